@@ -1,6 +1,6 @@
 (* C09 — proofs about the regenerated evaluator (C09/Gen.v) against the C semantics (C09/Spec.v):
    operators. The literal part is in C09/Proofs2.v. *)
-From Coq Require Import ZArith NArith String List Bool Lia.
+From Coq Require Import ZArith NArith String List Bool Lia ZifyBool.
 Import ListNotations.
 From Cffi Require Import C09.Prim C09.Gen C09.Spec C09.Model.
 Open Scope Z_scope.
@@ -77,16 +77,20 @@ Proof.
   apply Z.eqb_eq in Ea, Eb. rewrite Ea, Eb in *. auto.
 Qed.
 
+Lemma bits_le_64 : forall t, bits t <= 64.
+Proof. intros t. unfold bits. destruct (rk t); lia. Qed.
+
 Lemma c_shift_exact : forall left ta a b f t v,
   c_shift left ta a b f = Some (t, v, true) ->
-  f = true /\ 0 <= b /\ v = (if left then a * 2 ^ b else Z.shiftr a b).
+  f = true /\ 0 <= b < 64 /\ v = (if left then a * 2 ^ b else Z.shiftr a b).
 Proof.
-  intros left ta a b f t v. unfold c_shift.
+  intros left ta a b f t v. unfold c_shift. pose proof (bits_le_64 ta) as B64.
   destruct (Z.ltb_spec b 0) as [Hlt|Hge]; simpl; [discriminate|].
-  destruct (bits ta <=? b); [discriminate|].
+  destruct (Z.leb_spec (bits ta) b); [discriminate|].
   destruct left.
-  - destruct (sgn ta && (a <? 0)); [discriminate|]. intros R. apply result_exact in R. tauto.
-  - intros R. inversion R; subst. auto.
+  - destruct (sgn ta && (a <? 0)); [discriminate|]. intros R. apply result_exact in R.
+    destruct R as [-> ->]. repeat split; lia.
+  - intros R. inversion R; subst. repeat split; lia.
 Qed.
 
 (* ------------------------------------------------------------------ the Python side *)
@@ -106,11 +110,13 @@ Proof.
   discriminate.
 Qed.
 
-Lemma binop_shift : forall a b, 0 <= b ->
+Lemma binop_shift : forall a b, 0 <= b <= 1024 ->
   binop "<<" a b = Some (Ok (a * 2 ^ b)) /\ binop ">>" a b = Some (Ok (Z.shiftr a b)).
 Proof.
-  intros a b Hb. unfold binop. simpl. unfold bind2, bind.
-  now rewrite py_lshift_spec, py_rshift_spec.
+  intros a b Hb. unfold binop. simpl.
+  assert (G : negb ((0 <=? b) && (b <=? 1024)) = false) by lia.
+  rewrite G. unfold bind2, bind.
+  rewrite py_lshift_spec, py_rshift_spec by lia. auto.
 Qed.
 
 Lemma unop_plus : unop "+" = Some (fun v => Ok v).
